@@ -449,20 +449,26 @@ pub fn run_c09(toks: &[&str]) -> Lines {
         let mut r3 = Cursor::new(&bytes);
         let mut nf = 0usize;
         let mut nc = 0usize;
+        // the record bytes the callbacks are handed, section by section (compared with the model's stream_walk)
+        let mut fblob: Vec<u8> = vec![];
+        let mut cblob: Vec<u8> = vec![];
         let res = mdb_shard::streaming_shard::process_shard_stream(
             &mut r3,
-            Some(|_f: mdb_shard::file_structs::MDBFileInfoView| {
+            Some(|f: mdb_shard::file_structs::MDBFileInfoView| {
                 nf += 1;
+                f.serialize(&mut fblob)?;
                 Ok(())
             }),
-            Some(|_c: mdb_shard::cas_structs::MDBCASInfoView| {
+            Some(|c: mdb_shard::cas_structs::MDBCASInfoView| {
                 nc += 1;
+                c.serialize(&mut cblob)?;
                 Ok(())
             }),
         );
         if res.is_err() || nf != b.files.len() || nc != b.cass.len() {
             why.push("streaming-walk".into());
         }
+        out.push(("obs", format!("stream files={} {} cas={} {}", nf, cksum(&fblob), nc, cksum(&cblob))));
     }
     // lookups
     let mut nq = 0;
